@@ -34,29 +34,43 @@
 //  readv : `rseg` arms a one-shot ECONNRESET for the next readv on the server side.
 //  accept: the first g_accept_fail calls fail (EMFILE, ECONNABORTED, EINTR in turn); the pending connection stays queued.
 #include <deque>
+#include <cstdarg>
 struct WAns { char kind; size_t n; };
 static std::deque<WAns> g_wq;
 static volatile unsigned long g_wq_used = 0;
-static volatile bool g_wfail = false;
 static volatile bool g_rerr = false;
 static volatile int g_accept_fail = 0;
-static volatile int g_client_fd = -1;
-static bool serverSideSocket(int fd) {
-    if (fd == g_client_fd) return false;
-    struct stat st;
-    return fstat(fd, &st) == 0 && S_ISSOCK(st.st_mode);
+// Server-side connection sockets: the k-th successful accept() belongs to the k-th client of the harness (clients connect
+// one at a time). Everything the library does on such a descriptor is attributed to that connection index.
+static const int kMaxFd = 4096;
+static int g_conn_of_fd[kMaxFd];            // -1 = not a server-side connection socket
+static bool g_wfail_fd[kMaxFd];             // every further write on this descriptor fails with EPIPE
+static bool g_fd_tables_ready = false;
+static int g_accepted = 0;
+static int g_last_read_conn = -1;           // connection whose socket was read last (request handlers run right after)
+static std::string g_sys;                   // system calls on server-side connection sockets since the last report
+static void initFdTables() {
+    if (g_fd_tables_ready) return;
+    for (int i = 0; i < kMaxFd; ++i) { g_conn_of_fd[i] = -1; g_wfail_fd[i] = false; }
+    g_fd_tables_ready = true;
+}
+static int connOfFd(int fd) { initFdTables(); return (fd >= 0 && fd < kMaxFd) ? g_conn_of_fd[fd] : -1; }
+static void sysEvent(int conn, const std::string &what) {
+    g_sys += (g_sys.empty() ? "" : ",") + ("c" + std::to_string(conn) + ":" + what);
 }
 extern "C" ssize_t write(int fd, const void *buf, size_t n) {
     typedef ssize_t (*write_t)(int, const void *, size_t);
     static write_t real = (write_t)dlsym(RTLD_NEXT, "write");
-    if ((g_wfail || !g_wq.empty()) && serverSideSocket(fd)) {
-        if (g_wfail) { errno = EPIPE; return -1; }
-        WAns a = g_wq.front(); g_wq.pop_front(); ++g_wq_used;
-        switch (a.kind) {
-            case 'p': break;
-            case 's': return real(fd, buf, n < a.n ? n : a.n);
-            case 'a': errno = EAGAIN; return -1;
-            case 'e': g_wfail = true; errno = EPIPE; return -1;
+    if (connOfFd(fd) >= 0) {
+        if (g_wfail_fd[fd]) { errno = EPIPE; return -1; }
+        if (!g_wq.empty()) {
+            WAns a = g_wq.front(); g_wq.pop_front(); ++g_wq_used;
+            switch (a.kind) {
+                case 'p': break;
+                case 's': return real(fd, buf, n < a.n ? n : a.n);
+                case 'a': errno = EAGAIN; return -1;
+                case 'e': g_wfail_fd[fd] = true; errno = EPIPE; return -1;
+            }
         }
     }
     return real(fd, buf, n);
@@ -64,17 +78,48 @@ extern "C" ssize_t write(int fd, const void *buf, size_t n) {
 extern "C" ssize_t readv(int fd, const struct iovec *iov, int cnt) {
     typedef ssize_t (*readv_t)(int, const struct iovec *, int);
     static readv_t real = (readv_t)dlsym(RTLD_NEXT, "readv");
-    if (g_rerr && serverSideSocket(fd)) { g_rerr = false; errno = ECONNRESET; return -1; }
+    int c = connOfFd(fd);
+    if (c >= 0) {
+        g_last_read_conn = c;
+        if (g_rerr) { g_rerr = false; errno = ECONNRESET; return -1; }
+    }
     return real(fd, iov, cnt);
 }
-// OS-level effect watched as a model-internal observable: the server never shuts a connection down half-way
-// (the repaired C12-04 defect was a shutdown(SHUT_RD)); a rewrite that does is reported as a broken correspondence
-static std::string g_shutdowns;
+// OS-level effects on the server side of every connection, reported as a model-internal observable (`M sys`): the library
+// makes the accepted socket non-blocking and, when a connection is torn down, closes it — no shutdown(), no socket option
+// (the repaired C12-04 defect was a shutdown(SHUT_RD); SO_LINGER{on,0} would discard unsent responses at close)
 extern "C" int shutdown(int fd, int how) {
     typedef int (*shutdown_t)(int, int);
     static shutdown_t real = (shutdown_t)dlsym(RTLD_NEXT, "shutdown");
-    if (fd != g_client_fd && g_client_fd >= 0) g_shutdowns += (g_shutdowns.empty() ? "" : ",") + std::to_string(how);
+    int c = connOfFd(fd);
+    if (c >= 0) sysEvent(c, "shutdown=" + std::to_string(how));
     return real(fd, how);
+}
+extern "C" int setsockopt(int fd, int level, int optname, const void *optval, socklen_t optlen) {
+    typedef int (*sso_t)(int, int, int, const void *, socklen_t);
+    static sso_t real = (sso_t)dlsym(RTLD_NEXT, "setsockopt");
+    int c = connOfFd(fd);
+    if (c >= 0) {
+        int v = 0; if (optval && optlen >= sizeof(int)) memcpy(&v, optval, sizeof(int));
+        sysEvent(c, "sockopt=" + std::to_string(level) + "/" + std::to_string(optname) + "/" + std::to_string(v));
+    }
+    return real(fd, level, optname, optval, optlen);
+}
+extern "C" int fcntl(int fd, int cmd, ...) {
+    typedef int (*fcntl_t)(int, int, ...);
+    static fcntl_t real = (fcntl_t)dlsym(RTLD_NEXT, "fcntl");
+    va_list ap; va_start(ap, cmd); long arg = va_arg(ap, long); va_end(ap);
+    int c = connOfFd(fd);
+    if (c >= 0 && cmd == F_SETFL) sysEvent(c, std::string("setfl") + ((arg & O_NONBLOCK) ? "+nonblock" : "-nonblock"));
+    if (c >= 0 && cmd == F_SETFD) sysEvent(c, std::string("setfd") + ((arg & FD_CLOEXEC) ? "+cloexec" : "-cloexec"));
+    return real(fd, cmd, arg);
+}
+extern "C" int close(int fd) {
+    typedef int (*close_t)(int);
+    static close_t real = (close_t)dlsym(RTLD_NEXT, "close");
+    int c = connOfFd(fd);
+    if (c >= 0) { sysEvent(c, "close"); g_conn_of_fd[fd] = -1; g_wfail_fd[fd] = false; }
+    return real(fd);
 }
 extern "C" int accept(int fd, struct sockaddr *addr, socklen_t *len) {
     typedef int (*accept_t)(int, struct sockaddr *, socklen_t *);
@@ -85,7 +130,10 @@ extern "C" int accept(int fd, struct sockaddr *addr, socklen_t *len) {
         --g_accept_fail;
         return -1;
     }
-    return real(fd, addr, len);
+    int nfd = real(fd, addr, len);
+    initFdTables();
+    if (nfd >= 0 && nfd < kMaxFd) { g_conn_of_fd[nfd] = g_accepted++; g_wfail_fd[nfd] = false; }
+    return nfd;
 }
 
 using namespace tbox;
@@ -174,6 +222,15 @@ static bool sameHost(const Url::Host &a, const Url::Host &b) {
     return a.user == b.user && a.password == b.password && a.host == b.host && a.port == b.port;
 }
 static std::string str(const std::vector<uint8_t> &d) { return std::string(d.begin(), d.end()); }
+// the same bytes as a string whose storage is a heap block of exactly size()+1 bytes (no small-string buffer, no slack capacity):
+// a read past the terminating NUL runs into the ASan redzone
+static std::string exactStr(const std::vector<uint8_t> &d) {
+    std::string s;
+    s.reserve(d.size() > 15 ? d.size() : 16);   // > 15 forces heap storage in libstdc++
+    s.assign(d.begin(), d.end());
+    if (d.size() > 15) s.shrink_to_fit();
+    return s;
+}
 static bool methodByName(const std::string &n, Method &m) {
     static const char *names[] = {"kUnset", "kGet", "kHead", "kPut", "kPost", "kTrace", "kOptions", "kDelete"};
     static const Method vals[] = {Method::kUnset, Method::kGet, Method::kHead, Method::kPut, Method::kPost, Method::kTrace, Method::kOptions, Method::kDelete};
@@ -259,19 +316,27 @@ static void doFeed(PConn &c, const std::vector<uint8_t> &seg) {
 struct Srv {
     event::Loop *loop = nullptr;
     Server *srv = nullptr;
-    int cfd = -1;
     std::string path;
     // scripted handlers: the server has kLevels handlers (a middleware chain); what handler `lvl` does for
-    // request `idx` is a list of actions: n = call next(), b<hex> = set 200 + body, k = keep the context (answered
-    // later by `done`), t = throw, s = server.stop(), c = server.cleanup().  No script: level 0 keeps the context.
+    // request `idx` of a connection is a list of actions: n = call next(), b<hex> = set 200 + body, k = keep the context
+    // (answered later by `done`), t = throw, s = server.stop(), c = server.cleanup().  No script: level 0 keeps the context.
     struct Act { char kind; std::string body; };
     static const int kLevels = 3;
     typedef std::vector<std::vector<Act>> Script;
-    std::map<int, ContextSptr> held;
-    std::map<int, Script> scripts;
-    int next_idx = 0;
-    int cur_idx = -1;
+    // one client of the harness = one connection of the server (index = accept order)
+    struct Cli {
+        int cfd = -1;
+        bool eof = false;
+        bool cclosed = false;
+        std::map<int, ContextSptr> held;
+        std::map<int, Script> scripts;
+        int next_idx = 0;
+        int cur_idx = -1;
+    };
+    std::vector<std::unique_ptr<Cli>> clis;
+    int cur = 0;                // the connection the op lines are about (`on <k>`)
     bool poisoned = false;      // a handler threw: counters of the library are unbalanced, the objects are leaked at reset
+    Cli &c() { return *clis[cur]; }
 
     static bool parseScript(const std::string &spec, Script &out) {
         out.assign(kLevels, std::vector<Act>());
@@ -301,21 +366,26 @@ struct Srv {
         return true;
     }
 
+    // the request belongs to the connection whose socket the library read last (onTcpReceived runs right after readv)
     void runLevel(int lvl, ContextSptr ctx, const NextFunc &next) {
+        int ci = g_last_read_conn;
+        if (ci < 0 || ci >= (int)clis.size()) { std::cout << "P req on unknown connection " << ci << "\n"; return; }
+        Cli &cl = *clis[ci];
         if (lvl == 0) {
-            cur_idx = next_idx++;
-            std::cout << "P req " << cur_idx << " " << showReq(ctx->req()) << "\n";
+            cl.cur_idx = cl.next_idx++;
+            if (ci != cur) std::cout << "P xreq " << ci << "\n";     // a request handed out on a connection that got no segment
+            std::cout << "P req " << cl.cur_idx << " " << showReq(ctx->req()) << "\n";
         }
-        int idx = cur_idx;
+        int idx = cl.cur_idx;
         std::cout << "P call " << idx << " " << lvl << "\n";
-        auto it = scripts.find(idx);
-        if (it == scripts.end()) { if (lvl == 0) held[idx] = ctx; return; }
+        auto it = cl.scripts.find(idx);
+        if (it == cl.scripts.end()) { if (lvl == 0) cl.held[idx] = ctx; return; }
         std::vector<Act> acts = it->second[lvl];
         for (auto &a : acts) {
             switch (a.kind) {
                 case 'n': next(); break;
                 case 'b': ctx->res().status_code = StatusCode::k200_OK; ctx->res().body = a.body; break;
-                case 'k': held[idx] = ctx; break;
+                case 'k': cl.held[idx] = ctx; break;
                 case 't': throw std::runtime_error("scripted handler throws");
                 case 's': srv->stop(); break;
                 case 'c': srv->cleanup(); break;
@@ -323,11 +393,24 @@ struct Srv {
         }
     }
 
-    bool eof = false;
-    bool cclosed = false;
+    // one more client; true = the server accepted it (its accept() count went up)
+    bool connectClient() {
+        int fd = ::socket(AF_UNIX, SOCK_STREAM | SOCK_NONBLOCK, 0);
+        struct sockaddr_un a; memset(&a, 0, sizeof(a));
+        a.sun_family = AF_UNIX; strncpy(a.sun_path, path.c_str(), sizeof(a.sun_path) - 1);
+        if (::connect(fd, (struct sockaddr *)&a, sizeof(a)) != 0) { ::close(fd); return false; }
+        int before = g_accepted;
+        clis.emplace_back(new Cli);
+        clis.back()->cfd = fd;
+        pump();
+        return g_accepted == before + 1;
+    }
 
     bool start(int accept_failures = 0) {
         static int seq = 0;
+        initFdTables();
+        for (int i = 0; i < kMaxFd; ++i) { g_conn_of_fd[i] = -1; g_wfail_fd[i] = false; }
+        g_accepted = 0; g_last_read_conn = -1; g_sys.clear();
         g_accept_fail = accept_failures;
         path = "/tmp/C12-h-" + std::to_string(getpid()) + "-" + std::to_string(seq++) + ".sock";
         loop = event::Loop::New();
@@ -336,13 +419,7 @@ struct Srv {
         for (int lvl = 0; lvl < kLevels; ++lvl)
             srv->use([this, lvl](ContextSptr ctx, const NextFunc &next) { runLevel(lvl, ctx, next); });
         if (!srv->start()) return false;
-        cfd = ::socket(AF_UNIX, SOCK_STREAM | SOCK_NONBLOCK, 0);
-        struct sockaddr_un a; memset(&a, 0, sizeof(a));
-        a.sun_family = AF_UNIX; strncpy(a.sun_path, path.c_str(), sizeof(a.sun_path) - 1);
-        if (::connect(cfd, (struct sockaddr *)&a, sizeof(a)) != 0) return false;
-        g_client_fd = cfd;
-        pump();
-        return true;
+        return connectClient();
     }
 
     // a few passes of the real loop: epoll_wait(0) -> ready fd events -> deferred functions
@@ -361,52 +438,71 @@ struct Srv {
         return buf;
     }
 
-    // run the loop and read at the client until nothing moves any more (a large response needs
-    // the client to read before the server's write event can drain its send buffer)
+    static void sysLine() {
+        std::cout << "M sys " << (g_sys.empty() ? "-" : g_sys) << "\n";
+        g_sys.clear();
+    }
+
+    // run the loop and read at EVERY client until nothing moves any more (a large response needs the client to read before
+    // the server's write event can drain its send buffer); what arrives at the current client is `P out`, anything at
+    // another client is reported as `P xout` / `P xeof`
     void settle(bool run_loop = true) {
-        std::string got;
-        bool now_eof = false;
+        size_t n = clis.size();
+        std::vector<std::string> got(n);
+        std::vector<bool> now_eof(n, false);
         if (run_loop) pump();
         for (int idle = 0, rounds = 0; idle < 2 && rounds < 100000; ++rounds) {
-            size_t before = got.size();
+            size_t before = 0, after = 0;
+            for (auto &g : got) before += g.size();
             unsigned long used_before = g_wq_used;
-            if (!eof && !now_eof && cfd >= 0) {
+            for (size_t k = 0; k < n; ++k) {
+                Cli &cl = *clis[k];
+                if (cl.eof || now_eof[k] || cl.cfd < 0) continue;
                 char b[65536];
                 for (;;) {
-                    ssize_t n = ::recv(cfd, b, sizeof(b), 0);
-                    if (n > 0) { got.append(b, n); continue; }
-                    if (n == 0) now_eof = true;
+                    ssize_t r = ::recv(cl.cfd, b, sizeof(b), 0);
+                    if (r > 0) { got[k].append(b, r); continue; }
+                    if (r == 0) now_eof[k] = true;
                     break;
                 }
             }
             if (run_loop) for (int i = 0; i < 3; ++i) { loop->runNext([] {}, "verif-pass"); loop->runLoop(event::Loop::Mode::kOnce); }
-            idle = (got.size() == before && g_wq_used == used_before) ? idle + 1 : 0;
+            for (auto &g : got) after += g.size();
+            idle = (after == before && g_wq_used == used_before) ? idle + 1 : 0;
         }
-        std::cout << "P out " << showBytes(got) << "\n";
-        if (now_eof) { eof = true; std::cout << "P eof\n"; }
-        std::cout << "M shutdown " << (g_shutdowns.empty() ? "-" : g_shutdowns) << "\n";
-        g_shutdowns.clear();
+        std::cout << "P out " << showBytes(got[cur]) << "\n";
+        if (now_eof[cur]) { c().eof = true; std::cout << "P eof\n"; }
+        for (size_t k = 0; k < n; ++k) {
+            if ((int)k == cur) continue;
+            if (!got[k].empty()) std::cout << "P xout " << k << " " << showBytes(got[k]) << "\n";
+            if (now_eof[k]) { clis[k]->eof = true; std::cout << "P xeof " << k << "\n"; }
+        }
+        sysLine();
     }
 
     void clientClose() {
-        if (cfd >= 0) { ::close(cfd); cfd = -1; }
-        eof = true;
+        if (c().cfd >= 0) { ::close(c().cfd); c().cfd = -1; }
+        c().eof = true;
         pump();
     }
 
     void stop() {
-        g_wfail = false; g_rerr = false; g_accept_fail = 0; g_wq.clear(); g_shutdowns.clear();
+        g_rerr = false; g_accept_fail = 0; g_wq.clear();
         if (poisoned) {     // after an exception out of a handler the library's callback counters are unbalanced
-            if (cfd >= 0) { ::close(cfd); cfd = -1; }   // (its destructors assert on them): leak the objects
+            for (auto &cl : clis) {   // (its destructors assert on them): leak the objects
+                if (cl->cfd >= 0) { ::close(cl->cfd); cl->cfd = -1; }
+                new std::map<int, ContextSptr>(std::move(cl->held));
+            }
             if (!path.empty()) ::unlink(path.c_str());
-            new std::map<int, ContextSptr>(std::move(held));
+            g_sys.clear();
             return;
         }
-        held.clear();   // contexts commit into a still-living server
+        for (auto &cl : clis) cl->held.clear();   // contexts commit into a still-living server
         if (srv) { srv->cleanup(); delete srv; srv = nullptr; }
-        if (cfd >= 0) { ::close(cfd); cfd = -1; }
+        for (auto &cl : clis) if (cl->cfd >= 0) { ::close(cl->cfd); cl->cfd = -1; }
         if (loop) { loop->runNext([] {}, "verif-pass"); loop->runLoop(event::Loop::Mode::kOnce); delete loop; loop = nullptr; }
         if (!path.empty()) ::unlink(path.c_str());
+        g_sys.clear();
     }
 };
 
@@ -438,11 +534,11 @@ int main() {
                 else std::cout << "P upath 1 " << showPath(u) << " str=" << vh::hex(UrlPathToString(u)) << " rt=" << urlRoundTrip(u) << "\n";
             } else if (op == "uhost" && w.size() == 2 && vh::unhex(w[1], d)) {
                 Url::Host h;
-                if (!StringToUrlHost(str(d), h)) std::cout << "P uhost 0\n";
+                if (!StringToUrlHost(exactStr(d), h)) std::cout << "P uhost 0\n";
                 else std::cout << "P uhost 1 " << showHost(h) << " str=" << vh::hex(UrlHostToString(h)) << "\n";
             } else if (op == "url" && w.size() == 2 && vh::unhex(w[1], d)) {
                 Url u;
-                if (!StringToUrl(str(d), u)) std::cout << "P url 0\n";
+                if (!StringToUrl(exactStr(d), u)) std::cout << "P url 0\n";
                 else {
                     Url v; std::string s2 = UrlToString(u);
                     bool rt = StringToUrl(s2, v) && v.scheme == u.scheme && sameHost(v.host, u.host) && samePath(v.path, u.path);
@@ -469,10 +565,10 @@ int main() {
                 else std::cout << "1 scheme=" << vh::hex(v.scheme) << " " << showHost(v.host) << " " << showPath(v.path) << " rt="
                                << ((v.scheme == u.scheme && sameHost(v.host, u.host) && samePath(v.path, u.path)) ? "1" : "0") << "\n";
             } else if (op == "enc" && w.size() == 3 && (w[1] == "0" || w[1] == "1") && vh::unhex(w[2], d)) {
-                std::cout << "P enc " << vh::hex(UrlEncode(str(d), w[1] == "1")) << "\n";
+                std::cout << "P enc " << vh::hex(UrlEncode(exactStr(d), w[1] == "1")) << "\n";
             } else if (op == "dec" && w.size() == 2 && vh::unhex(w[1], d)) {
                 std::string out; bool threw = false;
-                try { out = UrlDecode(str(d)); } catch (const std::out_of_range &) { threw = true; }   // the documented failure
+                try { out = UrlDecode(exactStr(d)); } catch (const std::out_of_range &) { threw = true; }   // the documented failure
                 if (threw) std::cout << "P dec throws\n"; else std::cout << "P dec " << vh::hex(out) << "\n";
             } else if (op == "mkreq" && w.size() == 9 && methodByName(w[1], me) && vh::unhex(w[2], d) && parseKVs(w[3], kvs) && parseKVs(w[4], kvs2) &&
                        vh::unhex(w[5], d2) && verByName(w[6], ve) && parseKVs(w[7], kvs3) && vh::unhex(w[8], d3)) {
@@ -493,7 +589,7 @@ int main() {
                 }
                 std::cout << "\n";
             } else if (op == "mkres" && w.size() == 5 && verByName(w[1], ve) && vh::to_u64(w[2], n) && n <= 999 && parseKVs(w[3], kvs) && vh::unhex(w[4], d)) {
-                Respond r; r.http_ver = ve; r.status_code = (StatusCode)(int)n; r.headers = kvs; r.body = str(d);
+                Respond r; r.http_ver = ve; r.status_code = (StatusCode)(int)n; r.headers = kvs; r.body = exactStr(d);
                 std::cout << "P mkres " << vh::hex(r.toString()) << "\n";
             } else if ((op == "sstop" || op == "sclean") && w.size() == 1 && sv && !sv->poisoned) {
                 if (op == "sstop") sv->srv->stop(); else sv->srv->cleanup();   // outside any handler; contexts may still be held
@@ -504,95 +600,114 @@ int main() {
             } else if (op == "srv" && (w.size() == 1 || (w.size() == 2 && vh::to_u64(w[1], n) && n >= 1 && n <= 5)) && !sv && !pc) {
                 sv.reset(new Srv);
                 if (!sv->start((int)n)) { std::cout << "P srv-start-failed\n"; }
-                else std::cout << "P srv\n";
+                else { std::cout << "P srv\n"; Srv::sysLine(); }
+            } else if (op == "conn" && w.size() == 1 && sv && !sv->poisoned && sv->srv->state() == Server::State::kRunning && sv->clis.size() < 8) {
+                size_t k = sv->clis.size();
+                if (sv->connectClient()) std::cout << "P conn " << k << "\n"; else std::cout << "P conn " << k << " not-accepted\n";
+                Srv::sysLine();
+            } else if (op == "on" && w.size() == 2 && vh::to_u64(w[1], n) && sv && n < sv->clis.size()) {
+                sv->cur = (int)n;
+                std::cout << "P on " << n << "\n";
+            } else if (op == "sstart" && w.size() == 1 && sv && !sv->poisoned) {
+                std::cout << "P sstart " << (sv->srv->start() ? 1 : 0) << "\n";
+                sv->pump();
+                Srv::sysLine();
             } else if (sv && sv->poisoned && (op == "seg" || op == "done" || op == "doneN" || op == "doneR" || op == "rel" ||
                        op == "cclose" || op == "dclose" || op == "dcloseN" || op == "cdone" || op == "chalf" || op == "chalfS" || op == "wfail" || op == "sstop" || op == "sclean" ||
-                       op == "wq" || op == "rseg")) {
+                       op == "wq" || op == "rseg" || op == "conn" || op == "sstart")) {
                 std::cout << "P poisoned\n";
-            } else if (op == "sync" && w.size() == 3 && vh::to_u64(w[1], n) && vh::unhex(w[2], d) && sv && !sv->scripts.count((int)n)) {
+            } else if (op == "sync" && w.size() == 3 && vh::to_u64(w[1], n) && vh::unhex(w[2], d) && sv && !sv->c().scripts.count((int)n)) {
                 Srv::Script sc(Srv::kLevels);
                 Srv::Act a; a.kind = 'b'; a.body.assign(d.begin(), d.end());
                 sc[0].push_back(a);
-                sv->scripts[(int)n] = sc;
+                sv->c().scripts[(int)n] = sc;
                 std::cout << "P sync\n";
-            } else if (op == "script" && w.size() == 3 && vh::to_u64(w[1], n) && sv && !sv->scripts.count((int)n) &&
+                Srv::sysLine();
+            } else if (op == "script" && w.size() == 3 && vh::to_u64(w[1], n) && sv && !sv->c().scripts.count((int)n) &&
                        Srv::parseScript(w[2], sc)) {
-                sv->scripts[(int)n] = sc;
+                sv->c().scripts[(int)n] = sc;
                 std::cout << "P script\n";
+                Srv::sysLine();
             } else if (op == "seg" && w.size() == 2 && vh::unhex(w[1], d) && sv && !d.empty()) {
-                if (sv->cfd >= 0) ::send(sv->cfd, d.data(), d.size(), MSG_NOSIGNAL);
+                if (sv->c().cfd >= 0) ::send(sv->c().cfd, d.data(), d.size(), MSG_NOSIGNAL);
                 sv->settle();
-            } else if (op == "done" && w.size() == 3 && vh::to_u64(w[1], n) && vh::unhex(w[2], d) && sv && sv->held.count((int)n)) {
-                auto it = sv->held.find((int)n);
+            } else if (op == "done" && w.size() == 3 && vh::to_u64(w[1], n) && vh::unhex(w[2], d) && sv && sv->c().held.count((int)n)) {
+                auto it = sv->c().held.find((int)n);
                 it->second->res().status_code = StatusCode::k200_OK;
                 it->second->res().body = std::string(d.begin(), d.end());
-                sv->held.erase(it);     // ~Context -> commitRespond
+                sv->c().held.erase(it);     // ~Context -> commitRespond
                 sv->settle();
             } else if (op == "doneN" && w.size() == 4 && vh::to_u64(w[1], n) && vh::to_u64(w[2], n2) && vh::to_u64(w[3], n3) &&
-                       n2 <= 2000000 && n3 <= 255 && sv && sv->held.count((int)n)) {
-                auto it = sv->held.find((int)n);
+                       n2 <= 2000000 && n3 <= 255 && sv && sv->c().held.count((int)n)) {
+                auto it = sv->c().held.find((int)n);
                 it->second->res().status_code = StatusCode::k200_OK;
                 it->second->res().body = std::string((size_t)n2, (char)n3);
-                sv->held.erase(it);
+                sv->c().held.erase(it);
                 sv->settle();
             } else if (op == "doneR" && w.size() == 5 && vh::to_u64(w[1], n) && vh::to_u64(w[2], n2) && n2 <= 999 &&
-                       parseKVs(w[3], kvs) && vh::unhex(w[4], d) && sv && sv->held.count((int)n)) {
-                auto it = sv->held.find((int)n);
+                       parseKVs(w[3], kvs) && vh::unhex(w[4], d) && sv && sv->c().held.count((int)n)) {
+                auto it = sv->c().held.find((int)n);
                 it->second->res().status_code = (StatusCode)(int)n2;
                 it->second->res().headers = kvs;
                 it->second->res().body = std::string(d.begin(), d.end());
-                sv->held.erase(it);
+                sv->c().held.erase(it);
                 sv->settle();
-            } else if (op == "rel" && w.size() == 2 && vh::to_u64(w[1], n) && sv && sv->held.count((int)n)) {
-                sv->held.erase((int)n);     // the handler lets go of the context without touching the response
+            } else if (op == "rel" && w.size() == 2 && vh::to_u64(w[1], n) && sv && sv->c().held.count((int)n)) {
+                sv->c().held.erase((int)n);     // the handler lets go of the context without touching the response
                 sv->settle();
-            } else if ((op == "chalf" || op == "chalfS") && w.size() == 1 && sv && !sv->cclosed) {
-                ::shutdown(sv->cfd, SHUT_WR);   // the client has nothing more to say but keeps reading
+            } else if ((op == "chalf" || op == "chalfS") && w.size() == 1 && sv && !sv->c().cclosed) {
+                ::shutdown(sv->c().cfd, SHUT_WR);   // the client has nothing more to say but keeps reading
                 sv->settle();
             } else if (op == "wq" && w.size() == 2 && sv && parseWq(w[1], wq) && wq.size() <= 8) {
                 for (auto &a : wq) g_wq.push_back(a);
                 std::cout << "P wq\n";
-            } else if (op == "rseg" && w.size() == 2 && vh::unhex(w[1], d) && sv && !d.empty() && !sv->cclosed) {
+                Srv::sysLine();
+            } else if (op == "rseg" && w.size() == 2 && vh::unhex(w[1], d) && sv && !d.empty() && !sv->c().cclosed) {
                 g_rerr = true;
-                if (sv->cfd >= 0) ::send(sv->cfd, d.data(), d.size(), MSG_NOSIGNAL);
+                if (sv->c().cfd >= 0) ::send(sv->c().cfd, d.data(), d.size(), MSG_NOSIGNAL);
                 sv->settle();
                 g_rerr = false;
             } else if (op == "wfail" && w.size() == 1 && sv) {
-                g_wfail = true;
+                for (int fd = 0; fd < kMaxFd; ++fd) if (g_conn_of_fd[fd] == sv->cur) g_wfail_fd[fd] = true;
                 std::cout << "P wfail\n";
-            } else if (op == "cdone" && w.size() == 3 && vh::to_u64(w[1], n) && vh::unhex(w[2], d) && sv && !sv->cclosed &&
-                       sv->held.count((int)n)) {
-                sv->cclosed = true;
-                if (sv->cfd >= 0) { ::close(sv->cfd); sv->cfd = -1; }   // the peer is gone before the handler completes
-                sv->eof = true;
-                auto it = sv->held.find((int)n);
+                Srv::sysLine();
+            } else if (op == "cdone" && w.size() == 3 && vh::to_u64(w[1], n) && vh::unhex(w[2], d) && sv && !sv->c().cclosed &&
+                       sv->c().held.count((int)n)) {
+                sv->c().cclosed = true;
+                if (sv->c().cfd >= 0) { ::close(sv->c().cfd); sv->c().cfd = -1; }   // the peer is gone before the handler completes
+                sv->c().eof = true;
+                auto it = sv->c().held.find((int)n);
                 it->second->res().status_code = StatusCode::k200_OK;
                 it->second->res().body = std::string(d.begin(), d.end());
-                sv->held.erase(it);     // write() -> EPIPE
+                sv->c().held.erase(it);     // write() -> EPIPE
                 sv->pump();
                 std::cout << "P closed\n";
+                Srv::sysLine();
             } else if (op == "dcloseN" && w.size() == 4 && vh::to_u64(w[1], n) && vh::to_u64(w[2], n2) && vh::to_u64(w[3], n3) &&
-                       n2 <= 2000000 && n3 <= 255 && sv && !sv->cclosed && sv->held.count((int)n)) {
-                auto it = sv->held.find((int)n);
+                       n2 <= 2000000 && n3 <= 255 && sv && !sv->c().cclosed && sv->c().held.count((int)n)) {
+                auto it = sv->c().held.find((int)n);
                 it->second->res().status_code = StatusCode::k200_OK;
                 it->second->res().body = std::string((size_t)n2, (char)n3);
-                sv->held.erase(it);     // partial write, the rest waits in the send buffer
-                sv->cclosed = true;
+                sv->c().held.erase(it);     // partial write, the rest waits in the send buffer
+                sv->c().cclosed = true;
                 sv->clientClose();      // the peer goes away without reading
                 std::cout << "P closed\n";
-            } else if (op == "cclose" && w.size() == 1 && sv && !sv->cclosed) {
-                sv->cclosed = true;
+                Srv::sysLine();
+            } else if (op == "cclose" && w.size() == 1 && sv && !sv->c().cclosed) {
+                sv->c().cclosed = true;
                 sv->clientClose();
                 std::cout << "P closed\n";
-            } else if (op == "dclose" && w.size() == 3 && vh::to_u64(w[1], n) && vh::unhex(w[2], d) && sv && !sv->cclosed &&
-                       sv->held.count((int)n)) {
-                auto it = sv->held.find((int)n);
+                Srv::sysLine();
+            } else if (op == "dclose" && w.size() == 3 && vh::to_u64(w[1], n) && vh::unhex(w[2], d) && sv && !sv->c().cclosed &&
+                       sv->c().held.count((int)n)) {
+                auto it = sv->c().held.find((int)n);
                 it->second->res().status_code = StatusCode::k200_OK;
                 it->second->res().body = std::string(d.begin(), d.end());
-                sv->held.erase(it);     // commit, then the peer closes before the loop runs again
-                sv->cclosed = true;
+                sv->c().held.erase(it);     // commit, then the peer closes before the loop runs again
+                sv->c().cclosed = true;
                 sv->clientClose();
                 std::cout << "P closed\n";
+                Srv::sysLine();
             } else ok = false;
         } catch (const std::exception &e) {
             std::cout << "P exception\n";
